@@ -82,24 +82,20 @@ impl VisitMut for BlockTransformVisitor<'_> {
         if self.transform_status.status == Status::Modified {
             match node {
                 Program::Script(script) => {
-                    let mut index = 0;
-                    if let Some(stmt) = script.body.first() {
-                        if stmt.is_use_strict() {
-                            index = 1;
-                        }
-                    }
+                    let index = get_variable_insertion_index(&script.body);
 
                     for prefix_statement in self.config.file_prefix_code.iter().rev() {
                         script.body.insert(index, prefix_statement.clone());
                     }
                 }
                 Program::Module(module) => {
-                    let mut index = 0;
-                    if let Some(ModuleItem::Stmt(stmt)) = module.body.first() {
-                        if stmt.is_use_strict() {
-                            index = 1;
-                        }
-                    }
+                    let index = module
+                        .body
+                        .iter()
+                        .take_while(|item| {
+                            matches!(item, ModuleItem::Stmt(stmt) if stmt.can_precede_directive())
+                        })
+                        .count();
 
                     for prefix_statement in self.config.file_prefix_code.iter().rev() {
                         module
@@ -148,9 +144,9 @@ fn insert_variable_declaration(ident_expressions: &[Ident], expr: &mut BlockStmt
 }
 
 fn get_variable_insertion_index(stmts: &[Stmt]) -> usize {
-    if !stmts.is_empty() && stmts[0].is_use_strict() {
-        1
-    } else {
-        0
-    }
+    // skip the whole directive prologue ('use strict' and any other leading string statements)
+    stmts
+        .iter()
+        .take_while(|stmt| stmt.can_precede_directive())
+        .count()
 }
